@@ -15,7 +15,7 @@ from .c08 import C08
 class C14(Prop):
     id = "C14"
     corr_module = "Corr.C14Corr"
-    quick_n = 1400
+    quick_n = 900
     thorough_n = 12000
     shard_size = 300
     rule = ("same event scripts as C08, biased towards timeouts: a timeout from the run() keyword and/or "
@@ -33,9 +33,20 @@ class C14(Prop):
         "processes that ignore signals (SIGKILL cannot be ignored) -- not explored",
     ]
 
+    phases = None
+
+    def setup(self, tier, seed):
+        self.phases = rc.Phases()
+        self.phases.mark("proof build (incl. waiting for the shared build lock)")
+
     def generate(self, rng, tier, n):
+        if self.phases:
+            self.phases.mark("scripted cases + shards")
         if tier == "quick":
-            yield from cases.small_sample(rng, 250)      # a slice of the exhaustive small scope
+            # a slice of the exhaustive small scope (all of it: thorough tier) + generated cases; the ones
+            # that cost real seconds (1 s per expiring join) are capped
+            yield from cases.quick_cases(rng, n, focus="timeout")
+            return
         for _ in range(n):
             yield cases.gen_case(rng, focus="timeout")
 
@@ -81,16 +92,23 @@ class C14(Prop):
             yield cases.gen_case(rng, focus="timeout")
 
     def extra_checks(self, tier, seed):
-        return [real_timeouts(tier), cli_source(tier)]
+        if self.phases:
+            self.phases.mark("extra checks")
+        budget = rc.ExtraBudget(tier, 30.0)
+        res = [cli_source(tier), real_timeouts(tier, budget)]
+        if self.phases:
+            self.phases.mark("end")
+            res.append(self.phases.entry())
+        return res
 
 
-def real_timeouts(tier):
+def real_timeouts(tier, budget):
     fails, evals = [], 0
     reps = 1 if tier == "quick" else 5
     strict = tier == "thorough"
     for _ in range(reps):
         for pty in (False, True):
-            for warn in (False, True):
+            for warn in ((False, True) if strict else ((True,) if pty else (False,))):   # quick: one per pty mode
                 # still running at expiry: killed, reported, promptly
                 evals += 1
                 r = rc.run_real("echo started; sleep 20", hide=True, in_stream=False, pty=pty, warn=warn,
@@ -148,7 +166,10 @@ def real_timeouts(tier):
         fails.append({"case": {"cmd": "echo started; sleep 20", "timeout": 0.3, "asynchronous": True,
                                "join_delay": 1.0},
                       "what": "outcome %s, stdout %r" % (r["outcome"], r["stdout"])})
-    # F-C14a: the shell exits 0 at once, a background child keeps the pipes for 2 s, the timer fires at 1 s
+    if not budget.allow("reproduction of known findings F-C14a/b"):
+        return {"name": "real-timeouts", "evaluations": evals, "failures": fails,
+                "note": budget.note() + "real children through Local (see the thorough tier for the full list)"}
+    # F-C14a: the shell exits 0 at once, a background child keeps the pipes for 4 s, the timer fires at 1 s
     evals += 1
     r = rc.run_real("(sleep 4 &); exit 0", hide=True, in_stream=False, timeout=1, bound=25)
     if r["outcome"] == "CommandTimedOut" and r["exited"] == 0:
@@ -165,7 +186,7 @@ def real_timeouts(tier):
     elif r["outcome"] != "CommandTimedOut":
         fails.append({"case": {"cmd": "sleep 3 & exec sleep 20", "timeout": 0.5}, "what": "outcome %s" % r["outcome"]})
     return {"name": "real-timeouts", "evaluations": evals, "failures": fails,
-            "note": "real children through Local: sleep 20 with timeout 0.5 (killed, CommandTimedOut with the output "
+            "note": budget.note() + "real children through Local: sleep 20 with timeout 0.5 (killed, CommandTimedOut with the output "
                     "so far, within %s s), quick commands with timeout 30 (normal outcome, timer thread gone), and "
                     "the two timing defects" % ("5" if strict else "15 (loaded machine margin)")}
 
